@@ -46,7 +46,7 @@ def run(workdir, module, cfg, spec_dirs, workers="auto", timeout=600, extra_file
         if os.path.abspath(src) != os.path.abspath(os.path.join(workdir, name)):
             shutil.copy(src, os.path.join(workdir, name))
     meta = os.path.join(workdir, "meta_" + cfg.replace(".cfg", "") + "_%d" % int(time.time() * 1000))
-    jopts = ["-Xss512m", "-Xmx" + heap, "-XX:+UseParallelGC"]
+    jopts = ["-Xss512m", "-Xmx" + heap, "-XX:+UseParallelGC", "-Djava.io.tmpdir=" + workdir]
     if dfs:
         jopts.append("-Dtlc2.tool.queue.IStateQueue=StateDeque")
     cmd = ["java"] + jopts + ["-cp", _classpath(), "tlc2.TLC", "-metadir", meta,
